@@ -311,7 +311,14 @@ def _arm_misc(w, cond):
         if cond != AL:
             _ill(w, "UNPREDICTABLE: conditional bkpt")
         return Insn("trap", "bkpt", 4, cond, imm=(_b(w, 19, 8) << 4) | (w & 15))
-    _ill(w, "unsupported: mrs/msr/bxj/saturating arithmetic/eret/hvc/smc")
+    if op2 == 5:
+        a, b, c, d = _b(w, 19, 16), _b(w, 15, 12), _b(w, 11, 8), w & 15
+        if c != 0:
+            _ill(w, "UNPREDICTABLE: saturating add/sub with bits 11:8 != 0")
+        if 15 in (a, b, d):
+            _ill(w, "UNPREDICTABLE: pc in saturating add/sub")
+        return Insn("qadd", ("qadd", "qsub", "qdadd", "qdsub")[op], 4, cond, rd=b, rm=d, rn=a)
+    _ill(w, "unsupported: mrs/msr/bxj/eret/hvc/smc")
 
 
 def _arm_extra_ldst(w, cond):
@@ -794,6 +801,10 @@ def _t32_dp_reg(h1, h2, w):
             _ill(w, "UNPREDICTABLE: sp/pc in extend")
         name = base if rn == 15 else base[:3] + "a" + base[3:]
         return Insn("ext16" if a in (2, 3) else "ext", name, 4, AL, rd=rd, rn=None if rn == 15 else rn, rm=rm, imm=8 * (b & 3), aux=base)
+    if a == 8 and b & 12 == 8:
+        if _bad(rd) or _bad(rn) or _bad(rm):
+            _ill(w, "UNPREDICTABLE: sp/pc in saturating add/sub")
+        return Insn("qadd", ("qadd", "qdadd", "qsub", "qdsub")[b & 3], 4, AL, rd=rd, rm=rm, rn=rn)
     if a in (9, 11) and b & 12 == 8:
         if rn != rm:
             _ill(w, "UNPREDICTABLE: rev/clz with the two Rm fields different")
@@ -1068,6 +1079,8 @@ def text(i, it_cond=None):
         return "%s%s %s, %s, %s" % (n, c, REG[i.rd], REG[i.rn], REG[i.rm])
     if k == "un":
         return "%s%s %s, %s" % (n, c, REG[i.rd], REG[i.rm])
+    if k == "qadd":
+        return "%s%s %s, %s, %s" % (n, c, REG[i.rd], REG[i.rm], REG[i.rn])
     if k == "sat":
         return "%s%s %s, #%d, %s%s" % (n, c, REG[i.rd], i.imm, REG[i.rn], _shift_suffix(i.sh, i.sha))
     if k == "pkh":
@@ -1478,6 +1491,16 @@ class Machine:
             if y != x:
                 self.q = 1
             r[i.rd] = y & M32
+        elif k == "qadd":
+            def sat32(x):
+                y = min(max(x, -(1 << 31)), (1 << 31) - 1)
+                if y != x:
+                    self.q = 1
+                return y
+            b = _sgn(r[i.rn])
+            if i.name in ("qdadd", "qdsub"):
+                b = sat32(2 * b)
+            r[i.rd] = sat32(_sgn(r[i.rm]) + b if i.name in ("qadd", "qdadd") else _sgn(r[i.rm]) - b) & M32
         elif k == "pkh":
             x = shift_c(r[i.rm], i.sh, i.sha, 0)[0]
             if i.name == "pkhbt":
